@@ -528,6 +528,36 @@ def directed_option_purity(ctx):
                               schema=safe_repr(mk()), value=safe_repr(v), first=base[:3], second=again[:3])
 
 
+def directed_argument_collections(ctx):
+    """collections the CALLER still holds, passed as arguments (keys of make_required as a set / list / tuple, operands of
+    schema.any(*xs), key tables): unchanged afterwards, and the same call again gives the same result"""
+    import copy
+    d = schema.dict({optional("a"): schema.int, optional("b"): schema.str, "c": schema.none})
+    other = schema.dict({optional("a"): schema.list, optional("z"): schema.int})
+    for mk in (lambda: {"a"}, lambda: {"a", "b"}, lambda: ["a", "b"], lambda: ("a",), lambda: set(), lambda: {"a", "nope"}, lambda: ["nope", "a"]):
+        ks = mk()
+        before = copy.copy(ks)
+        outs = []
+        for target in (d, other, d):
+            try:
+                outs.append(("ok", observe(make_required(target, ks))))
+            except Exception as e:  # noqa: BLE001
+                outs.append(("raise", type(e).__name__))
+            ctx.count("argument_collection_calls")
+            if ks != before or type(ks) is not type(before):
+                ctx.violation("make_required changed the key collection it was given", keys_before=safe_repr(before), keys_after=safe_repr(ks))
+                break
+        else:
+            if outs[0] != outs[2]:
+                ctx.violation("make_required(d, keys) gives another result when repeated with the same key collection",
+                              keys=safe_repr(before), first=safe_repr(outs[0])[:300], again=safe_repr(outs[2])[:300])
+    xs = [schema.int, schema.str]
+    before = list(xs)
+    schema.any(*xs), schema.list(xs), schema.any(schema.int)(*xs) if False else None
+    if xs != before:
+        ctx.violation("a declaration changed the list of schemas it was given")
+
+
 def directed_generator_state(ctx):
     """generating from one schema must not change what ANOTHER schema generates: demanding schemas (repeats / lengths far above
     the defaults, huge bounds, long alphabets) faked through the public generator between two observations of ordinary ones"""
@@ -701,6 +731,7 @@ def run(ctx):
     directed_fault_then_repeat(ctx)
     directed_option_purity(ctx)
     directed_generator_state(ctx)
+    directed_argument_collections(ctx)
     steps = ctx.n(30, 100)
     for h in range(ctx.n(25, 80)):
         H = History(ctx)
